@@ -289,9 +289,8 @@ func refString(db map[string]AVal, a []string, now int64) *refExp {
 			delete(post, k)
 		}
 		var rep []func(StepOut) bool
-		for n := lo; n <= hi; n++ { // a key named twice counts once (Redis); the page does not say
-			rep = append(rep, rInt(int64(n)))
-		}
+		_ = hi
+		rep = append(rep, rInt(int64(lo))) // the number of keys removed: a key named twice is removed once
 		return &refExp{reply: rep, desc: fmt.Sprintf("the number of keys removed, %d", lo), post: post}
 
 	case "INCR", "DECR", "INCRBY", "DECRBY":
